@@ -629,6 +629,7 @@ func c03Run(r *Run) {
 		}
 	}
 	c03Promote(r, npkg)
+	c03Order(r, dpkg, npkg)
 	c03Truth(r, npkg, dpkg)
 }
 
